@@ -334,7 +334,54 @@ def rule_round2(ctx: Ctx) -> None:
            + ("" if not bad else " — path to the timeout without the check: " + bad[0]))
 
 
+def rule_hunted(ctx: Ctx) -> None:
+    """Rules distilled from hunted defects.
+    C09-1: the blocking acquire of a FIFO primitive takes its non-blocking fast path (`try_acquire`) only when nobody is queued — arrival order.
+    C09-2: a preemption that returned capacity is followed by a look at the waiter queue on every path (else a waiter stays parked next to
+    free capacity until some later release).
+    C09-3: a barrier distinguishes "tripped" from "reset/aborted" when it releases parked parties, and wait() raises on the latter —
+    nobody passes a barrier that fewer than `parties` reached."""
+    prog = ctx.prog
+    n = 0
+    for rel, q in ((SEM, "Semaphore.acquire"), (RES, "Resource.acquire")):
+        fn = prog.func(rel, q)
+        ff = ctx.flow(fn)
+        fast = [nd for nd in ff.cfg.nodes if nd.kind == "test" and any(isinstance(k.func, ast.Attribute) and k.func.attr == "try_acquire" and path_of(k.func.value) == "self" for k in calls_in(nd.ast))]
+        for nd in fast:
+            n += 1
+            ok = ff.holds_at(nd, Fact("falsy", "self._waiters"))
+            ctx.ob("C09-1", "G1", fn, nd.ast, ok, f"{q}: the non-blocking fast path is tried only when no earlier request is queued (`not self._waiters`) — a late small request must not overtake a queued one")
+    need(n >= 1, "C09-1: no try_acquire fast path found in Semaphore.acquire / Resource.acquire")
+    pa = prog.func(PRE, "PreemptibleResource.acquire")
+    pf = ctx.flow(pa)
+    pre = [nd for nd in pf.cfg.nodes if nd.kind == "stmt" and any(path_of(k.func) == "self._try_preempt" for k in calls_in(nd.ast))]
+    need(len(pre) == 1, "C09-2: PreemptibleResource.acquire should attempt a preemption at one site")
+    holder = path_of(pre[0].ast.targets[0]) if isinstance(pre[0].ast, ast.Assign) else None
+    bad = []
+    for p_ in enumerate_paths(pf, pre[0], stop=lambda x: x is pf.cfg.exit):
+        if p_.end not in ("exit", "stop"):
+            continue
+        woke = any(nd.kind == "stmt" and any(path_of(k.func) == "self._wake_waiters" for k in calls_in(nd.ast)) for nd in p_.nodes)
+        nothing_freed = holder is not None and p_.decided(lambda t: t == holder) is False
+        if not (woke or nothing_freed):
+            bad.append(p_.describe()[:90])
+    ctx.ob("C09-2", "G2", pa, pre[0].ast, holder is not None and not bad, "PreemptibleResource.acquire: after a preemption every path either found that nothing was freed or calls `_wake_waiters()` "
+           "(evicting a whole grant can free more than the preemptor needs)" + ("" if not bad else " — " + bad[0]))
+    bw = prog.func(BAR, "Barrier.wait")
+    outcomes = {}
+    for q in ("Barrier._break_barrier", "Barrier.reset", "Barrier.abort"):
+        f_ = prog.func(BAR, q)
+        cbs = [k for k in calls_in(f_.node) if isinstance(k.func, ast.Attribute) and k.func.attr == "callback"]
+        outcomes[q] = [unparse(k.args[0]) if k.args else None for k in cbs]
+    okb = outcomes["Barrier._break_barrier"] == ["True"] and outcomes["Barrier.reset"] == ["False"] and outcomes["Barrier.abort"] == ["False"]
+    bf = ctx.flow(bw)
+    raises = [nd for nd in bf.cfg.nodes if nd.kind == "stmt" and isinstance(nd.ast, ast.Raise) and (bf.holds_at(nd, Fact("is", "released.value", "False")) or bf.holds_at(nd, Fact("falsy", "released.value")))]
+    ctx.ob("C09-3", "G3", bw, raises[0].ast if raises else None, okb and bool(raises), "Barrier: parked parties are released with True when the last party arrives and with False by reset()/abort(), and wait() raises "
+           f"on False — a reset or aborted barrier lets nobody pass (outcomes {outcomes})")
+
+
 def run(ctx: Ctx) -> None:
+    ctx.guarded(rule_hunted)
     ctx.guarded(rule_bounds)
     ctx.guarded(rule_wake)
     ctx.guarded(rule_blocking_waits)
@@ -343,6 +390,9 @@ def run(ctx: Ctx) -> None:
 
 
 MUTANTS = [
+    ("semaphore-barging-restored", SEM, "        if not self._waiters and self.try_acquire(count):", "        if self.try_acquire(count):", "C09-1"),
+    ("preemption-surplus-not-offered", PRE, "                self._grant_immediate(future, amount, priority, on_preempt)\n                # The evicted grants may have held more than we need: hand the\n                # surplus to queued waiters now, not at some later release()\n                self._wake_waiters()\n", "                self._grant_immediate(future, amount, priority, on_preempt)\n", "C09-2"),
+    ("barrier-reset-releases-like-trip", BAR, "            waiter.callback(False)\n\n        # Reset to clean state", "            waiter.callback(True)\n\n        # Reset to clean state", "C09-3"),
     ("fixed-release-by-weight", CONC, "            weight: Ignored for FixedConcurrency (always 1).\n        \"\"\"\n        self._active = max(0, self._active - 1)", "            weight: Ignored for FixedConcurrency (always 1).\n        \"\"\"\n        self._active = max(0, self._active - weight)", "C09-1"),
     ("preempt-leaves-release-latch-open", PRE, "        self._preempted = True\n        self._released = True\n", "        self._preempted = True\n", "C09-2"),
     ("pool-waiter-sleeps-after-check", POOL, ["            yield poll_interval\n            elapsed += poll_interval\n\n            if received[0]:", "                    break\n\n        # Timeout - remove ourselves from waiters"], ["            if received[0]:", "                    break\n            yield poll_interval\n            elapsed += poll_interval\n\n        # Timeout - remove ourselves from waiters"], "C09-4"),
